@@ -42,7 +42,8 @@ const char *AN[] = { "crypto_pwhash(argon2i)", "crypto_pwhash(argon2id)", "crypt
 
 struct Case {
     int api; int pset; long fail_at; bool from;      // fail_at -1 = counting run
-    KV kv() const { KV k; k.s("api", AN[api]).u("apii", api).u("pset", pset).i("fail_at", fail_at).u("from", from); return k; }
+    unsigned long mask = F_ALL;                      // CPU-feature mask: the scrypt sse / nosse and the Argon2 backends have their own allocation-failure paths
+    KV kv() const { KV k; k.s("api", AN[api]).u("apii", api).u("pset", pset).i("fail_at", fail_at).u("from", from).u("mask", mask); return k; }
 };
 struct Params { uint64_t ops; size_t mem; size_t outlen; size_t size; };
 Params pset(int api, int i) {
@@ -109,7 +110,7 @@ Outcome call_api(const Case &c) {
 
 long g_last_requests = 0;
 bool run(const Case &c, std::string &msg) {
-    set_mask(F_ALL);
+    set_mask(c.mask);
     Outcome o = call_api(c);
     g_last_requests = o.requests;
     char b[400];
@@ -134,19 +135,24 @@ void explore(Ctx &ctx) {
         for (int ps = 0; ps < npsets(api); ps++) {
             if (!ctx.mine(idx++)) continue;
             if (!ctx.thorough() && api < SODIUM_MALLOC && ps == 3) continue;
-            Case cnt{ api, ps, -1, false };
-            if (!exec_case(ctx, cnt, run, mix64(mix64(api, ps), 999999), false)) continue;
-            long n = g_last_requests;
-            ctx.cls(std::string("requests:") + AN[api], (uint64_t) n);
-            for (long i = 0; i < n; i++)
-                for (int from = 0; from < 2; from++) {
-                    Case c{ api, ps, i, from != 0 };
-                    exec_case(ctx, c, run, mix64(mix64(api, ps), mix64((uint64_t) i, from)), true);
-                }
+            // every backend the build can select: all features, no SIMD at all (scrypt nosse, Argon2 ref), SSSE3 only, AVX2 only
+            std::vector<unsigned long> masks = { F_ALL };
+            if (api < SODIUM_MALLOC) for (auto &m : mask_set(false)) if (m.name == "none" || m.name == "-avx2" || m.name == "-avx512f" || m.name == "-ssse3") masks.push_back(m.mask);
+            for (unsigned long mask : masks) {
+                Case cnt{ api, ps, -1, false }; cnt.mask = mask;
+                if (!exec_case(ctx, cnt, run, mix64(mix64(api, ps), mix64(999999, mask)), false)) continue;
+                long n = g_last_requests;
+                if (mask == F_ALL) ctx.cls(std::string("requests:") + AN[api], (uint64_t) n);
+                for (long i = 0; i < n; i++)
+                    for (int from = 0; from < 2; from++) {
+                        Case c{ api, ps, i, from != 0 }; c.mask = mask;
+                        exec_case(ctx, c, run, mix64(mix64(api, ps), mix64(mix64((uint64_t) i, from), mask)), true);
+                    }
+            }
         }
 }
 
-bool replay(const KV &k, std::string &msg) { Case c{ (int) k.gu("apii"), (int) k.gu("pset"), (long) k.gi("fail_at"), k.gu("from") != 0 }; return run(c, msg); }
+bool replay(const KV &k, std::string &msg) { Case c{ (int) k.gu("apii"), (int) k.gu("pset"), (long) k.gi("fail_at"), k.gu("from") != 0 }; if (k.has("mask")) c.mask = (unsigned long) k.gu("mask"); return run(c, msg); }
 
 }  // namespace
 
